@@ -157,14 +157,16 @@ def fn_authboss_Events_FireBefore : String := "func(e Event, w http.ResponseWrit
 def fn_authboss_Events_FireAfter : String := "func(e Event, w http.ResponseWriter, r *http.Request) (bool, error) { return c.call(c.after[e], w, r) }"
 def fn_authboss_Events_call : String := "func(evs []EventHandler, w http.ResponseWriter, r *http.Request) (bool, error) { handled := false for _, fn := range evs { interrupt, err := fn(w, r, handled) if err != nil { return false, err } if interrupt { handled = true } } return handled, nil }"
 def fn_authboss_NewEvents : String := "func() *Events { return &Events{ before: make(map[Event][]EventHandler), after: make(map[Event][]EventHandler), } }"
-def fn_expire_Setup : String := "func(ab *authboss.Authboss) error { ab.Events.After(authboss.EventAuth, func(w http.ResponseWriter, r *http.Request, handled bool) (bool, error) { refreshExpiry(w) return false, nil }) return nil }"
+def fn_expire_Setup : String := "func(ab *authboss.Authboss) error { refresh := func(w http.ResponseWriter, r *http.Request, handled bool) (bool, error) { refreshExpiry(w) return false, nil } ab.Events.After(authboss.EventAuth, refresh) ab.Events.After(authboss.EventOAuth2, refresh) ab.Events.After(authboss.EventRegister, refresh) return nil }"
 def fn_expire_timeToExpiry : String := "func(r *http.Request, expireAfter time.Duration) time.Duration { dateStr, ok := authboss.GetSession(r, authboss.SessionLastAction) if !ok { return expireAfter } date, err := time.Parse(time.RFC3339, dateStr) if err != nil { panic(\"last_action is not a valid RFC3339 date\") } remaining := date.Add(expireAfter).Sub(nowTime().UTC()) if remaining > 0 { return remaining } return 0 }"
 def fn_expire_refreshExpiry : String := "func(w http.ResponseWriter) { authboss.PutSession(w, authboss.SessionLastAction, nowTime().UTC().Format(time.RFC3339)) }"
 def fn_expire_Middleware : String := "func(ab *authboss.Authboss) func(http.Handler) http.Handler { return func(next http.Handler) http.Handler { return expireMiddleware{ expireAfter: ab.Config.Modules.ExpireAfter, next: next, sessionWhitelist: ab.Config.Storage.SessionStateWhitelistKeys, } } }"
 def fn_expire_expireMiddleware_ServeHTTP : String := "func(w http.ResponseWriter, r *http.Request) { if _, ok := authboss.GetSession(r, authboss.SessionKey); ok { ttl := timeToExpiry(r, m.expireAfter) if ttl == 0 { authboss.DelAllSession(w, m.sessionWhitelist) authboss.DelSession(w, authboss.SessionKey) authboss.DelSession(w, authboss.SessionLastAction) ctx := context.WithValue(r.Context(), authboss.CTXKeyPID, nil) ctx = context.WithValue(ctx, authboss.CTXKeyUser, nil) ctxState := r.Context().Value(authboss.CTXKeySessionState) if ctxState != nil { state := ctxState.(authboss.ClientState) whitelist := make(map[string]struct{}) for _, w := range m.sessionWhitelist { whitelist[w] = struct{}{} } newState := stateHider{cs: state, whitelist: whitelist} ctx = context.WithValue(ctx, authboss.CTXKeySessionState, newState) } r = r.WithContext(ctx) } else { refreshExpiry(w) } } m.next.ServeHTTP(w, r) }"
 def fn_expire_stateHider_Get : String := "func(s string) (string, bool) { _, ok := k.whitelist[s] if !ok { return \"\", false } return k.cs.Get(s) }"
 def eventRegs_expire : List (String × String) := [
-  ("expire.Setup", "After authboss.EventAuth func(w http.ResponseWriter, r *http.Request, handled bool) (bool, error) { refreshExpiry(w) return false, nil }")
+  ("expire.Setup", "After authboss.EventAuth refresh"),
+  ("expire.Setup", "After authboss.EventOAuth2 refresh"),
+  ("expire.Setup", "After authboss.EventRegister refresh")
 ]
 def stateCalls_expire : List (String × String) := [
   ("expire.refreshExpiry", "PutSession(authboss.SessionLastAction, nowTime().UTC().Format(time.RFC3339))"),
